@@ -96,7 +96,7 @@ package ptrace
 //@   assigns nothing
 //@   ensures canmodify(flags) ==> !result
 
-//@ func runner/ptrace.getFileMode
+//@ func runner/ptrace.getFileMode props C15
 //@   arith int
 //@   assigns nothing
 
